@@ -126,9 +126,22 @@ def walk_oracle(data, ans, hist=None):
     if m.group(2) == "-":
         return []
     nodes = []             # [depth, kind, a, b, span text, name, children]
+    attached = []          # (role, kind+hextext, owner node or marker [kind, a, b])
+    ctoks = []             # (kind+hextext, a, b) comment tokens of the text
+    owner = None
+    markers = []
     for item in m.group(2).split(";"):
         f = item.split(":")
+        if f[0] == "c":
+            attached.append((f[1], f[2], owner)); continue
+        if f[0] == "k":
+            l0, c0, l1, c1 = parse_span(f[2])
+            ctoks.append((f[1], doc.offset(l0, c0), doc.offset(l1, c1))); continue
         depth, kind, sp = int(f[0]), f[1], f[2]
+        if kind in ("members_end", "trailing"):     # not nodes: only owners of comments
+            l0, c0, l1, c1 = parse_span(sp)
+            owner = [depth, kind, doc.offset(l0, c0), doc.offset(l1, c1), sp, None, []]
+            continue
         l0, c0, l1, c1 = parse_span(sp)
         a, b = doc.offset(l0, c0), doc.offset(l1, c1)
         if a is None or b is None:
@@ -138,6 +151,7 @@ def walk_oracle(data, ans, hist=None):
         if kind == "error":
             continue
         nodes.append([depth, kind, a, b, sp, unhex(f[3]) if len(f) > 3 else None, []])
+        owner = nodes[-1]
     if syn:
         return bad         # the remaining clauses quantify over syntactically valid modules
     stack, roots = [], []
@@ -156,6 +170,36 @@ def walk_oracle(data, ans, hist=None):
             last, lastk = k[3], k[1]
 
     siblings("module", [r for r in roots if r[1] in ("import", "toplevel")])
+    # comments carry no location: check their owners against the comment tokens of the text
+    if hist is not None and attached:
+        hist["comment"] = hist.get("comment", 0) + len(attached)
+    # (conservation - every comment of the text is attached exactly once - is C09's property: finding C09-F2 is open)
+    if True:
+        lower = {}
+        anc = []
+        for n in nodes:               # lower bound of a leading comment: nearest ancestor starting earlier
+            while anc and anc[-1][0] >= n[0]:
+                anc.pop()
+            lb = 0
+            for x in reversed(anc):
+                if x[2] < n[2]:
+                    lb = x[2]; break
+            lower[id(n)] = lb
+            anc.append(n)
+        end_of_code = max([n[3] for n in roots if n[1] in ("import", "toplevel")] or [0])
+        for role, c, o in attached:
+            cands = [(a, b) for cc, a, b in ctoks if cc == c and a is not None and b is not None]
+            if o is None:
+                continue
+            if role == "lead":
+                okc = any(lower.get(id(o), 0) <= a and b <= o[3] for a, b in cands)
+            elif role == "inner":
+                okc = any(o[2] <= a and b <= o[3] for a, b in cands)
+            else:
+                okc = any(end_of_code <= a for a, b in cands)
+            if not okc:
+                bad.append(f"{role} comment {unhex(c[1:])[:30]!r} is attached to {o[1]} {o[4]} but no such comment lies "
+                           f"{'before/inside' if role == 'lead' else 'inside' if role == 'inner' else 'after'} it")
     for n in nodes:
         depth, kind, a, b, sp, name, kids = n
         if hist is not None:
@@ -447,6 +491,23 @@ def check_svc_batch(ctx, cases, label, stats, max_pos):
                       {"protocol": "svc", "label": label, "module": name, "text": small, "oracle": msgs})
 
 
+def gap_comments(rng, src):
+    """a uniquely numbered comment in (a random third of) the token gaps: every comment owner is hit"""
+    out, n = [], 0
+    for t in c05.TOKEN_RE.findall(src):
+        out.append(t)
+        if not t.isspace() and t != "-" and not t.startswith("//") and rng.chance(1, 3):
+            k = rng.below(4)
+            out.append(f"/*C{n}*/" if k < 2 else f"/** D{n} */" if k == 2 else f" // L{n}\n")
+            n += 1
+    parts = []
+    for t in out:
+        if parts and parts[-1].endswith("/") and t[:1] in ("/", "*"):
+            parts.append(" ")
+        parts.append(t)
+    return "".join(parts)
+
+
 def check_batch(ctx, kind, texts, label, stats):
     lines = [f"{kind} " + hexs(t.encode()) for t in texts]
     if kind == "lex":
@@ -583,13 +644,13 @@ def run(ctx):
                         samples.append({"text": t})
     # AST walk: every production in every variant (grammar generator + catalogue) and re-laid-out real programs
     wdone = 0
-    whist = {"grammar": 0, "grammar+layout": 0, "catalogue+layout": 0, "repo+layout": 0, "mutation": 0}
+    whist = {"grammar": 0, "grammar+layout": 0, "catalogue+layout": 0, "repo+layout": 0, "mutation": 0, "gap-comments": 0}
     while wdone < n_walk and not ctx.violations:
         batch = []
         for _ in range(min(500, n_walk - wdone)):
             r = rng.fork()
             k = rng.weighted([("grammar", 3), ("grammar+layout", 3), ("catalogue+layout", 1 if catalogue else 0),
-                              ("repo+layout", 3), ("mutation", 1)])
+                              ("repo+layout", 3), ("mutation", 1), ("gap-comments", 1)])
             whist[k] += 1
             if k == "grammar":
                 t = gen_module(r)
@@ -599,6 +660,8 @@ def run(ctx):
                 t = relayout(r, catalogue)
             elif k == "repo+layout":
                 t = relayout(r, r.pick(small_sources)[1])
+            elif k == "gap-comments":
+                t = gap_comments(r, catalogue if (catalogue and r.chance(1, 2)) else r.pick(small_sources)[1])
             else:
                 t = c05.mutate(r, r.pick(small_sources)[1], vocab)
             batch.append(t)
@@ -631,8 +694,9 @@ def run(ctx):
         "productions_never_reached": missing,
         "svc_query_histogram": stats["svc_hist"], "svc_error_free_modules": stats["svc_clean"],
         "svc_modules_with_errors": stats["svc_with_errors"], "svc_positions_per_module_cap": max_pos,
-        "pending": ["comments carry no location in the AST (Comment{kind,text}); their owners' locations are walked, the comments "
-                    "themselves cannot be", "E.MethodAccess only exists after type checking (the parser emits FieldAccess); it is reached "
+        "comment_attachments_checked": stats["node_hist"].get("comment", 0),
+        "pending": ["comment conservation (every comment attached exactly once) is C09's property (C09-F2 open) and is not checked here; "
+                    "comment placement relative to the owner is", "E.MethodAccess only exists after type checking (the parser emits FieldAccess); it is reached "
                     "through the service queries only", "rename returns the whole re-printed module, not edit ranges: only `still parses` is checked"],
         "extractor_ok": extractor_ok,
     })
